@@ -50,3 +50,6 @@ reg("C16", "model_checking", "ledger-based enumeration of timeout configurations
 reg("C17", "model_checking", "explicit-state search over all read segmentations x all caller max_bytes sequences of the upgrade hand-over",
     "For 101 and CONNECT-2xx with 0..10 post-head bytes: every cut of the byte stream and every sequence of max_bytes in {1,2,3,5,64KiB}; the upgraded stream must yield exactly the post-head bytes, writes pass through, the connection is closed and never pooled again.",
     _SEQ_NOTE, "DESIGN.md 5 C17")
+reg("C15", "exploration", "bounded-exhaustive enumeration of peer input (all single-point mutations of valid conversations, structured HTTP/2 frames, token sequences) + fault enumeration",
+    "Every single-point mutation at every offset of valid HTTP/1.1, HTTP/2, CONNECT and SOCKS5 conversations, frame type x flags x stream id x payload x position, HPACK/:status variants, all token sequences up to length 3/4, and every injected backend exception at every operation: the call must end with success or a documented httpcore exception whose class matches the cause, and must terminate.",
+    _SEQ_NOTE, "DESIGN.md 5 C15")
